@@ -68,7 +68,15 @@ func VerifCloseIdle[T TSTable, O any](db TSDB[T, O]) int {
 
 // VerifCollect runs the metrics collection callback once.
 func VerifCollect[T TSTable, O any](db TSDB[T, O]) {
-	db.(*database[T, O]).collect()
+	d := db.(*database[T, O])
+	if d.metrics != nil {
+		d.collect()
+		return
+	}
+	// a database opened without a metrics factory returns from collect() at once: run the per-segment part of it
+	for _, s := range d.segmentController.copySegments() {
+		s.collectOpenMetrics(d.segmentController.metrics)
+	}
 }
 
 // VerifScan does what the rotation tick does: segments(ctx, reopen) followed by DecRef of each.
